@@ -385,6 +385,9 @@ def compare(ctx, hists, sig_prefix, stream):
     from common import model_batch
     reps = model_batch([[20, h.items] for h in hists])
     ndiff = 0
+    for h in hists:
+        for nm, n in getattr(h.w, "forms", {}).items():
+            ctx.count("bulk_argument_form:" + nm, n)
     for h, rep in zip(hists, reps):
         if isinstance(rep, tuple):
             ctx.add("corr", sig_prefix + ":model-died", "the model driver failed on a history", {"items": h.items[:60], "stream": stream})
